@@ -247,6 +247,8 @@ func TestVFC09Concurrent(t *testing.T) {
 		finished := vfkit.WaitProgress(allDone, &progress, 60*time.Second)
 		close(watchStop)
 		if !finished {
+			// closing a deadlocked module would block for ever: leak it
+			hst.x.s = nil
 			buf := make([]byte, 1<<20)
 			n := runtime.Stack(buf, true)
 			t.Fatalf("stall: no statistics update and no read completed for 60 s (deadlock between the updaters, the flush worker and the readers?)\n"+
